@@ -159,6 +159,13 @@ impl Pool {
             .map_err(|e| Error::emit("Creating table schema_version", &e))?;
 
         loop {
+            /* An upgrade step and the record of the version it leads to are one transaction, so that
+             * a crash leaves either both or neither behind (a step that is run twice fails).
+             */
+            let tx = self
+                .conn
+                .unchecked_transaction()
+                .map_err(|e| Error::emit("Starting the schema upgrade transaction", &e))?;
             let upgraded_to_version = match self
                 .conn
                 .query_row(
@@ -187,6 +194,8 @@ impl Pool {
                     rusqlite::params![DB_SCHEMA_KEY, upgraded_to_version],
                 )
                 .map_err(|e| Error::emit("Creating updating schema version", &e))?;
+            tx.commit()
+                .map_err(|e| Error::emit("Committing the schema upgrade", &e))?;
         }
         Ok(self)
     }
